@@ -3,8 +3,11 @@
 //! 1 = VIOLATION reported, 2 = harness error.
 
 mod c01;
+mod c15;
 mod c19;
+mod c20;
 mod data;
+mod driver;
 mod env;
 mod fp;
 mod prng;
@@ -45,6 +48,8 @@ fn main() {
             println!("linfa-sim check {prop} tier={tier} VERIF_SEED={seed}");
             let code = match prop {
                 "C01" => c01::check(&tier, seed),
+                "C15" => c15::check(&tier, seed),
+                "C20" => c20::check(&tier, seed, std::env::var("VERIF_ONLY").ok().as_deref()),
                 _ => usage(),
             };
             std::process::exit(code)
@@ -55,12 +60,19 @@ fn main() {
             let v: serde_json::Value = serde_json::from_str(&text).unwrap_or_else(|e| report::harness_error(&format!("parse {path}: {e}")));
             let code = match v["property"].as_str().unwrap_or("") {
                 "C01" => c01::replay(&v),
+                "C15" => c15::replay(&v),
+                "C20" => c20::replay(&v),
                 other => report::harness_error(&format!("unknown property in replay file: {other}")),
             };
             if code == 1 {
                 println!("VIOLATION property={} replay={path}", v["property"].as_str().unwrap_or(""));
             }
             std::process::exit(code)
+        }
+        "worker" => {
+            let core = args.get(1).and_then(|s| s.parse().ok()).unwrap_or(0);
+            let child = args.get(2).and_then(|s| s.parse().ok()).unwrap_or(0);
+            std::process::exit(driver::worker_main(core, child))
         }
         "selftest" => std::process::exit(selftest::run()),
         "smoke" => smoke::run(args.get(1).map(|s| s.as_str()).unwrap_or("")),
